@@ -55,25 +55,12 @@ fn lower_bound_of_target_clause(skeleton: &mut PredicateSkeleton, target_pos: us
         .opt_arg_index_key
         .switch_on_term_loc()
     {
-        let search_result = skeleton.clauses.make_contiguous()
-            [0..skeleton.core.clause_assert_margin]
-            .partition_point(|clause_index_info| clause_index_info.clause_start > index_loc);
-
-        // a hit among the asserta'd clauses counts only if that clause
-        // belongs to the block at index_loc: when the block lies among the
-        // assertz'd clauses the search stops at 0 without having found it.
-        if search_result < skeleton.core.clause_assert_margin
-            && skeleton.clauses[search_result]
-                .opt_arg_index_key
-                .switch_on_term_loc()
-                == Some(index_loc)
-        {
-            search_result
-        } else {
-            skeleton.clauses.make_contiguous()[skeleton.core.clause_assert_margin..]
-                .partition_point(|clause_index_info| clause_index_info.clause_start < index_loc)
-                + skeleton.core.clause_assert_margin
-        }
+        // the clauses of one indexed block are contiguous in the skeleton
+        // and exactly they name the block's indexing instruction: search
+        // for the first of them.
+        skeleton.clauses.make_contiguous()[0..=index].partition_point(|clause_index_info| {
+            clause_index_info.opt_arg_index_key.switch_on_term_loc() != Some(index_loc)
+        })
     } else {
         index
     };
